@@ -98,12 +98,11 @@ func iterateShared(fn subscription.IterateFn, options subscription.IterationOpti
 	}
 	// 查询指定clientID下的所有topic
 	if options.ClientID != "" {
-		for _, v := range index[options.ClientID] {
-			for _, c := range v.shared {
-				if sub, ok := c[options.ClientID]; ok {
-					if !fn(options.ClientID, sub) {
-						return false
-					}
+		for key, v := range index[options.ClientID] {
+			shareName, _ := splitSharedIndexKey(key)
+			if sub, ok := v.shared[shareName][options.ClientID]; ok {
+				if !fn(options.ClientID, sub) {
+					return false
 				}
 			}
 		}
@@ -111,6 +110,20 @@ func iterateShared(fn subscription.IterateFn, options subscription.IterationOpti
 	}
 	// 遍历
 	return trie.preOrderTraverse(fn)
+}
+
+// sharedIndexKey returns the key of sharedIndex[clientID]: shareName/topicFilter.
+func sharedIndexKey(shareName, topicFilter string) string {
+	return shareName + "/" + topicFilter
+}
+
+// splitSharedIndexKey is the inverse of sharedIndexKey (a share name never contains '/').
+func splitSharedIndexKey(key string) (shareName, topicFilter string) {
+	i := strings.IndexByte(key, '/')
+	if i < 0 {
+		return "", key
+	}
+	return key[:i], key[i+1:]
 }
 
 func iterateNonShared(fn subscription.IterateFn, options subscription.IterationOptions, index map[string]map[string]*topicNode, trie *topicTrie) bool {
@@ -275,6 +288,7 @@ func (db *TrieDB) SubscribeLocked(clientID string, subscriptions ...*gmqtt.Subsc
 		if sub.ShareName != "" {
 			node = db.sharedTrie.subscribe(clientID, sub)
 			index = db.sharedIndex
+			topicName = sharedIndexKey(sub.ShareName, sub.TopicFilter)
 		} else if isSystemTopic(topicName) {
 			node = db.systemTrie.subscribe(clientID, sub)
 			index = db.systemIndex
@@ -325,12 +339,16 @@ func (db *TrieDB) UnsubscribeLocked(clientID string, topics ...string) {
 			index = db.userIndex
 			topicTrie = db.userTrie
 		}
+		indexKey := topic
+		if shareName != "" {
+			indexKey = sharedIndexKey(shareName, topic)
+		}
 		if _, ok := index[clientID]; ok {
-			if _, ok := index[clientID][topic]; ok {
+			if _, ok := index[clientID][indexKey]; ok {
 				db.stats.SubscriptionsCurrent--
 				db.clientStats[clientID].SubscriptionsCurrent--
 			}
-			delete(index[clientID], topic)
+			delete(index[clientID], indexKey)
 		}
 		topicTrie.unsubscribe(clientID, topic, shareName)
 	}
@@ -359,11 +377,26 @@ func (db *TrieDB) unsubscribeAll(index map[string]map[string]*topicNode, clientI
 	delete(index, clientID)
 }
 
+// unsubscribeAllShared removes the client from every share group it has joined,
+// leaving the other members of those groups (and other groups on the same filter) untouched.
+func (db *TrieDB) unsubscribeAllShared(clientID string) {
+	index := db.sharedIndex
+	db.stats.SubscriptionsCurrent -= uint64(len(index[clientID]))
+	if db.clientStats[clientID] != nil {
+		db.clientStats[clientID].SubscriptionsCurrent -= uint64(len(index[clientID]))
+	}
+	for key := range index[clientID] {
+		shareName, topicFilter := splitSharedIndexKey(key)
+		db.sharedTrie.unsubscribe(clientID, topicFilter, shareName)
+	}
+	delete(index, clientID)
+}
+
 // UnsubscribeAllLocked is the non thread-safe version of UnsubscribeAll
 func (db *TrieDB) UnsubscribeAllLocked(clientID string) {
 	db.unsubscribeAll(db.userIndex, clientID)
 	db.unsubscribeAll(db.systemIndex, clientID)
-	db.unsubscribeAll(db.sharedIndex, clientID)
+	db.unsubscribeAllShared(clientID)
 }
 
 // UnsubscribeAll delete all subscriptions of the client
